@@ -25,9 +25,12 @@ MACHINES = {
     'x64': ('_RELOCATION_RECIPES_X64', 'RELA'),
     'MIPS': (('_RELOCATION_RECIPES_MIPS_RELA', '_RELOCATION_RECIPES_MIPS_REL'), 'SPLIT'),
     'ARM': ('_RELOCATION_RECIPES_ARM', 'REL'),
-    'AArch64': ('_RELOCATION_RECIPES_AARCH64', 'ANY'),
-    '64-bit PowerPC': ('_RELOCATION_RECIPES_PPC64', 'ANY'),
-    'IBM S/390': ('_RELOCATION_RECIPES_S390X', 'ANY'),
+    # RELA-only psABIs (ELF for the Arm 64-bit Architecture §5.7; 64-bit PowerPC ELF ABI §3.5; zSeries ELF ABI): every recipe of
+    # these tables takes r_addend, so a REL entry must be rejected with the relocation error (it used to end in KeyError:
+    # findings/C08-rel-flavour; the first version of these rows said ANY, i.e. mirrored the code instead of the ABI)
+    'AArch64': ('_RELOCATION_RECIPES_AARCH64', 'RELA'),
+    '64-bit PowerPC': ('_RELOCATION_RECIPES_PPC64', 'RELA'),
+    'IBM S/390': ('_RELOCATION_RECIPES_S390X', 'RELA'),
     'LoongArch': ('_RELOCATION_RECIPES_LOONGARCH', 'RELA'),
 }
 WIDTHS = {4: 'Elf_word', 8: 'Elf_word64', 1: 'Elf_byte', 2: 'Elf_half'}
